@@ -351,6 +351,26 @@ func runCase(id string, cfg Config, r *core.Rand) {
 				soupWg.Add(1)
 				go apiSoup(&soupWg, &soupStop, pa, pb, l, core.NewRand(int64(r.Uint64()>>1)), si*4+k)
 			}
+			// on some extra sessions the connection is closed / cut while traffic and the soup run
+			// (race detector over the close and disconnect paths); their calls may fail, which is not judged here
+			if si == 0 && cfg.S >= 2 && r.Intn(2) == 0 {
+				soupWg.Add(1)
+				mode := r.Intn(3)
+				go func(l *bed.Link) {
+					defer soupWg.Done()
+					for i := 0; i < 200 && atomic.LoadInt64(&cs.callsOK) < 20; i++ {
+						time.Sleep(time.Millisecond)
+					}
+					switch mode {
+					case 0:
+						l.A.Close()
+					case 1:
+						l.B.Close()
+					default:
+						l.CA.Sever(false)
+					}
+				}(l)
+			}
 		}
 	}
 	stalled := waitOrStall(&wg, func() int64 {
